@@ -118,9 +118,6 @@ type declSpec struct {
 	DefShare string `json:"defshare"`
 }
 
-// sharedDefs holds the default slices shared between declarations of the current case
-var sharedDefs = map[string][]string{}
-
 type hookSpec struct {
 	K string `json:"k"`
 	V int    `json:"v"`
@@ -393,7 +390,7 @@ func parseFloatS(d *declSpec, s string) float64 {
 
 // declare executes one declaration on cmd and returns the record of the declared variable.
 // Library panics (duplicate names, ...) propagate.
-func declare(cmd *cli.Cmd, d *declSpec, path string) *varRec {
+func declare(cmd *cli.Cmd, d *declSpec, path string, sharedDefs map[string][]string) *varRec {
 	name, desc, env := string(d.Name), string(d.Desc), string(d.Env)
 	isOpt := false
 	switch d.T {
@@ -488,7 +485,7 @@ func declare(cmd *cli.Cmd, d *declSpec, path string) *varRec {
 		if len(d.Def) > 0 {
 			def = strs(d.Def)
 		}
-		if d.DefShare != "" {
+		if d.DefShare != "" && sharedDefs != nil {
 			if shared, ok := sharedDefs[d.DefShare]; ok {
 				def = shared
 			} else {
@@ -681,6 +678,7 @@ type runCtx struct {
 	vars   []*varRec
 	values map[string][]B
 	sbu    map[string]bool
+	shared map[string][]string // default slices shared between declarations of this case
 }
 
 func firstName(name string) string {
@@ -724,7 +722,7 @@ func (r *runCtx) hook(h *hookSpec, tag, path string, isAction bool) func() {
 // configure performs, on cmd, everything that follows the policy/version step
 func (r *runCtx) configure(cmd *cli.Cmd, c *cmdSpec, path string) {
 	for i := range c.Decls {
-		rec := declare(cmd, &c.Decls[i], path)
+		rec := declare(cmd, &c.Decls[i], path, r.shared)
 		r.vars = append(r.vars, rec)
 	}
 	cmd.Spec = string(c.Spec)
@@ -757,8 +755,7 @@ func (r *runCtx) configure(cmd *cli.Cmd, c *cmdSpec, path string) {
 // runCase builds and runs one application. stderr may be nil (op conc), in which case no stderr is reported.
 // The IO hooks and the environment must already be in place.
 func runCase(req *request, stderr *bytes.Buffer) *runOut {
-	sharedDefs = map[string][]string{}
-	r := &runCtx{trace: []B{}}
+	r := &runCtx{trace: []B{}, shared: map[string][]string{}}
 	out := &runOut{ID: req.ID}
 
 	func() {
@@ -956,7 +953,7 @@ func opLex(req *request) interface{} {
 func declApp(decls []declSpec) *cli.Cli {
 	app := cli.App("app", "")
 	for i := range decls {
-		declare(app.Cmd, &decls[i], "app")
+		declare(app.Cmd, &decls[i], "app", map[string][]string{})
 	}
 	return app
 }
